@@ -761,10 +761,19 @@ class eval_abs(object):
         for x, start, stop in args:
             if isinstance(x, ExprTop):
                 return ExprTop()
+        def const_piece(x):
+            # value of a constant piece: an integer, or a slice of one (of a
+            # width no ExprInt can carry, e.g. the upper 24 bits of a register)
+            if isinstance(x, ExprInt):
+                return int(x.arg)
+            if isinstance(x, ExprSlice) and isinstance(x.arg, ExprInt):
+                return (int(x.arg.arg) >> x.start) & ((1<<(x.stop-x.start))-1)
+            return None
+
         is_int = True
         is_int_cond = 0
         for x, start, stop in args:
-            if isinstance(x, ExprInt):
+            if const_piece(x) is not None:
                 continue
             is_int = False
             if not isinstance(x, ExprCond) or not (isinstance(x.src1, ExprInt) and isinstance(x.src2, ExprInt)):
@@ -782,10 +791,10 @@ class eval_abs(object):
             total_bit = 0
 
             for xx, start, stop in args:
-                if isinstance(xx, ExprInt):
+                if const_piece(xx) is not None:
                     # plain integers: a fixed-width value would wrap when
                     # shifted to its position
-                    a = int(xx.arg)
+                    a = const_piece(xx)
 
                     mask = (1<<(stop-start))-1
                     a&=mask
@@ -810,14 +819,15 @@ class eval_abs(object):
                                                ExprInt(tab_uintsize[total_bit](mysrc1)),
                                                ExprInt(tab_uintsize[total_bit](mysrc2))), eval_cache)
             else:
-                raise 'cannot return non round bytes rez! %X %X'%(total_bit, rez)
+                # no integer type of that width: keep the pieces
+                return ExprCompose([(a, start, stop) for a, start, stop in args])
 
 
 
         rez = 0
         total_bit = 0
         for xx, start, stop in args:
-            a = int(xx.arg)
+            a = const_piece(xx)
             mask = (1<<(stop-start))-1
             a&=mask
             a<<=start#e.args[i][1]
@@ -826,7 +836,8 @@ class eval_abs(object):
         if total_bit in tab_uintsize:
             return ExprInt(tab_uintsize[total_bit](rez))
         else:
-            raise 'cannot return non rounb bytes rez! %X %X'%(total_bit, rez)
+            # no integer type of that width: keep the pieces
+            return ExprCompose([(a, start, stop) for a, start, stop in args])
 
     def eval_ExprTop(self, e, eval_cache = {}):
         return e
